@@ -97,6 +97,7 @@ type Explorer struct {
 	opaqueLen int
 	pcSet     map[*Term]bool
 	bounds    map[*Term]ival
+	rangeMemo map[*Term]rmemo
 }
 
 const poolSize = 6
@@ -113,6 +114,7 @@ func (e *Explorer) resetPath(prefix []Decision) {
 	e.class = ""
 	e.pcSet = map[*Term]bool{}
 	e.bounds = map[*Term]ival{}
+	e.rangeMemo = map[*Term]rmemo{}
 	resetFacts()
 	e.live = make([]bool, len(e.pool))
 	e.memos = make([]map[*Term]uint64, len(e.pool))
@@ -200,8 +202,12 @@ func (e *Explorer) feasible(c *Term) (bool, bool) { // (sat, conclusive)
 }
 
 func (e *Explorer) query(c *Term) (string, Model) {
+	tq := time.Now()
 	r, m := e.sol.Check(e.pc, c, e.allVars())
 	e.res.Queries++
+	if d := time.Since(tq); d > 5*time.Second && os.Getenv("GOSYM_SLOWLOG") != "" {
+		fmt.Fprintf(os.Stderr, "SLOW QUERY %.1fs %s %v -> %s (pc=%d) c=%s\n", d.Seconds(), e.res.Harness, e.res.Params, r, len(e.pc), c.short(6))
+	}
 	if e.crossEvery > 0 && e.res.Queries%e.crossEvery == 0 && r != "unknown" {
 		script := standaloneScript(e.pc, c, false)
 		for _, k := range []string{"z3old", "cvc5"} {
